@@ -180,6 +180,7 @@ const (
 	tCmpRight   = "comparison of untyped constants whose right operand is a parenthesised or compound expression"
 	tLenComp    = "len of a compound constant string expression used as an operand of an operator or conversion"
 	tFltShift   = "shift of an untyped floating-point constant used as an operand (the result must be an untyped integer constant)"
+	tRetF32     = "untyped constant returned as float32 whose rounding to float32 differs from rounding to float64 first"
 	tLogicConv  = "|| or && whose left operand is a bool(...) conversion and whose right operand contains a comparison or a logical operator"
 	tShiftTyped = "shift of an untyped constant by a typed constant count, used as an operand"
 	tQuoRune    = "quotient of an untyped rune constant and an untyped integer constant"
@@ -236,6 +237,7 @@ func (k *kase) acceptTriggers(neutralOK bool) []string {
 	add(k.inexact() && neutralOK, tCmpInex)
 	add(has(tags, "arraylen-float"), tArrayLen)
 	add(k.Ctx == "return" && has(tags, "src-beyond-int64"), tReturn)
+	add(k.Ctx == "return" && has(tags, "f32-double-rounding"), tRetF32)
 	add(has(tags, "decl-type-on-operands"), tDeclBin)
 	add(has(tags, "float-inexact-to-int"), tFloatInt)
 	add(has(tags, "len-compound-operand"), tLenComp)
